@@ -23,7 +23,7 @@ func init() {
 			{Name: "split-byte-skipped", File: "internal/archiver/file_saver.go",
 				Old: "			s.bpos += uint(split)\n			return data, nil", New: "			s.bpos += uint(split) + 1\n			return data, nil", Rule: "chunk-reads"},
 			{Name: "slot-index-shared-between-callbacks", File: "internal/archiver/file_saver.go",
-				Old: "			node.Content[pos] = newID", New: "			node.Content[idx-1] = newID", Rule: "content-order"},
+				Old: "			node.Content[pos] = newID", New: "			_ = pos\n			node.Content[idx-1] = newID", Rule: "content-order"},
 		},
 	})
 	register(&Property{
